@@ -1,6 +1,7 @@
 package main
 
 import (
+	"os"
 	"fmt"
 	"net"
 	"strings"
@@ -67,7 +68,7 @@ func evMap(e event.Event) map[string]interface{} { return event.ToMap(e) }
 func evString(e event.Event) string {
 	m := evMap(e)
 	cat := fmt.Sprint(m["category"])
-	if cat == "tcp" {
+	if cat == "tcp" || payloadCategory[cat] {
 		if _, ok := m["payload-hex"]; ok {
 			sip, dip := net.ParseIP(fmt.Sprint(m["source-ip"])), net.ParseIP(fmt.Sprint(m["destination-ip"]))
 			return fmt.Sprintf("ev=%s:%v>%s:%v:%s", ip4(sip), m["source-port"], ip4(dip), m["destination-port"], hexOrDash(fmt.Sprint(m["payload-hex"])))
@@ -238,7 +239,9 @@ func (r *canRun) step(c *connPlan) {
 		}
 		c.estab = true
 		r.nontriv = true
-		time.Sleep(3 * time.Millisecond) // let the handler goroutine block in its first Read
+		if os.Getenv("HT_C14_NOSLEEP") == "" {
+			time.Sleep(3 * time.Millisecond) // let the handler goroutine block in its first Read
+		}
 		c.phase = 2
 	case c.phase-2 < len(c.segs): // data
 		sp := c.segs[c.phase-2]
@@ -301,10 +304,18 @@ func (r *canRun) step(c *connPlan) {
 func (r *canRun) checkEvents(c *connPlan, evs []event.Event, expected bool) {
 	my := r.lab.myIP
 	got := 0
+	wantCat := "tcp"
+	if d, ok := decodedPorts[c.dport]; ok {
+		wantCat = d
+	}
 	for _, e := range evs {
 		m := evMap(e)
-		if fmt.Sprint(m["category"]) != "tcp" {
+		cat := fmt.Sprint(m["category"])
+		if cat != "tcp" && !payloadCategory[cat] {
 			continue
+		}
+		if _, ok := m["payload-hex"]; ok && cat != wantCat {
+			r.viol("event-wrong-category", fmt.Sprintf("connection to port %d reported with category %s", c.dport, cat))
 		}
 		if _, ok := m["payload-hex"]; !ok {
 			r.viol("handler-failed", fmt.Sprint(m["message"]))
@@ -390,6 +401,200 @@ func runScenario(arp int, conns []*connPlan, sched []int, noise [][]byte) {
 	r.finish()
 }
 
+// ports whose handler reads the first bytes and reports them under the protocol's own category
+var decodedPorts = map[uint16]string{23: "telnet", 443: "https", 139: "nbt-ip", 445: "smb-ip", 1433: "mssql", 6379: "redis"}
+var payloadCategory = map[string]bool{"telnet": true, "https": true, "nbt-ip": true, "smb-ip": true, "mssql": true, "redis": true}
+
+// runHandoff: n connections whose first data segment (PSH) follows the handshake ACK without any pause, so that it is
+// processed while the connection's handler goroutine is between starting, finding nothing buffered, and waiting for
+// the push signal. Whatever the order, the connection must be reported with the pushed bytes. Oracle only.
+func runHandoff(n int, dport uint16, gap time.Duration) {
+	r := newCanRun(1)
+	if r == nil {
+		return
+	}
+	defer r.lab.c.Close()
+	my := r.lab.myIP
+	line := fmt.Sprintf("@canhandoff %d %d %d", n, dport, gap.Microseconds())
+	verdict := "ok"
+	type hc struct {
+		peer  net.IP
+		sport uint16
+		data  []byte
+	}
+	var cs []hc
+	for i := 0; i < n; i++ {
+		c := hc{peer: stdPeers[i%4], sport: uint16(20000 + i), data: []byte(fmt.Sprintf("hello-%d", i))}
+		isn := uint32(i) * 7919
+		mk := func(seq, ack uint32, flags byte, payload []byte) []byte {
+			return ethFrame(ipPacket(c.peer, my, 6, tcpSegment(c.peer, my, c.sport, dport, seq, ack, flags, payload, true)))
+		}
+		r.lab.inject(mk(isn, 0, 0x02, nil))
+		r.lab.c.VerifTakeKnock() // the lab runs no knock detector: keep its queue empty
+		var srv uint32
+		for _, f := range r.lab.c.VerifDrainTx() {
+			if t := decodeTx(f); t.ok && t.flags == 0x12 {
+				srv = t.seq
+			}
+		}
+		ack, data := mk(isn+1, srv+1, 0x10, nil), mk(isn+1, srv+1, 0x18, c.data)
+		r.lab.inject(ack)
+		if gap > 0 {
+			for t0 := time.Now(); time.Since(t0) < gap; {
+			}
+		}
+		r.lab.inject(data)
+		r.lab.c.VerifDrainTx()
+		cs = append(cs, c)
+	}
+	r.lab.ev.waitLen(n, 4*time.Second)
+	time.Sleep(20 * time.Millisecond)
+	seen := map[string]string{}
+	for _, e := range r.lab.ev.From(0) {
+		m := evMap(e)
+		if _, ok := m["payload-hex"]; ok {
+			seen[fmt.Sprintf("%v:%v", m["source-ip"], m["source-port"])] = string(unhx(hexOrDash(fmt.Sprint(m["payload-hex"]))))
+		}
+	}
+	missing, wrong := 0, 0
+	first := ""
+	for _, c := range cs {
+		k := fmt.Sprintf("%v:%d", c.peer, c.sport)
+		p, ok := seen[k]
+		if !ok {
+			missing++
+			if first == "" {
+				first = k + " not reported within 4 s"
+				if os.Getenv("HT_C14_ONLY") != "" {
+					first += " tcb=" + tcbString(r.lab.c.VerifLookup(c.peer, my, c.sport, dport)) + fmt.Sprintf(" events=%d", r.lab.ev.Len())
+				}
+			}
+		} else if p != string(c.data) {
+			wrong++
+			if first == "" {
+				first = fmt.Sprintf("%s reported with payload %q, pushed %q", k, p, c.data)
+			}
+		}
+	}
+	if missing+wrong > 0 {
+		verdict = fmt.Sprintf("viol:pushed-bytes-not-reported:%d of %d connections whose first pushed segment directly followed the handshake: %d not reported, %d with another payload (%s)", missing+wrong, n, missing, wrong, first)
+	}
+	emit(line, fmt.Sprintf("reported=%d", len(seen)), verdict, true)
+}
+
+// runHTTPPort: a connection to a port whose handler parses an HTTP request (80: http, 9200: elasticsearch) and answers
+// it. Oracle only: the request is reported under the port's category with the client's addresses, method and target;
+// every emitted frame is addressed back with valid checksums; the reply's segments carry consecutive sequence numbers
+// starting at the SYN-ACK's + 1 and acknowledge the whole request.
+func runHTTPPort(dport uint16, peer net.IP, sport uint16, isn uint32, target string, cuts []int) {
+	r := newCanRun(1)
+	if r == nil {
+		return
+	}
+	defer r.lab.c.Close()
+	my := r.lab.myIP
+	req := []byte("GET " + target + " HTTP/1.1\r\nHost: sensor\r\nUser-Agent: probe/1\r\n\r\n")
+	cs := []string{"-"}
+	for _, c := range cuts {
+		cs = append(cs, fmt.Sprint(c))
+	}
+	line := fmt.Sprintf("@canhttp %d %s %d %d %s %s", dport, ip4(peer), sport, isn, target, strings.Join(cs, ","))
+	verdict := "ok"
+	viol := func(sig, d string) {
+		if verdict == "ok" {
+			verdict = "viol:" + sig + ":" + d
+		}
+	}
+	mk := func(seq, ack uint32, flags byte, payload []byte) []byte {
+		return ethFrame(ipPacket(peer, my, 6, tcpSegment(peer, my, sport, dport, seq, ack, flags, payload, true)))
+	}
+	var reply []byte
+	var next uint32
+	nframes := 0
+	collect := func() {
+		for _, f := range r.lab.c.VerifDrainTx() {
+			t := decodeTx(f)
+			nframes++
+			if !t.ok {
+				viol("tx-malformed", hx(f))
+				continue
+			}
+			if !t.ipCsumOK {
+				viol("tx-ip-checksum", hx(f))
+			}
+			if !t.tcpCsumOK {
+				viol("tx-tcp-checksum", fmt.Sprintf("segment with %d payload bytes: %s", len(t.payload), hx(f)))
+			}
+			if !t.src.Equal(my) || !t.dst.Equal(peer) || t.sport != dport || t.dport != sport {
+				viol("reply-not-addressed-back", fmt.Sprintf("%v:%d>%v:%d", t.src, t.sport, t.dst, t.dport))
+			}
+			if t.flags&0x02 != 0 {
+				next = t.seq + 1
+				continue
+			}
+			if len(t.payload) > 0 {
+				if t.seq != next {
+					viol("reply-sequence-wrong", fmt.Sprintf("segment with %d bytes has seq %d, expected %d", len(t.payload), t.seq, next))
+				}
+				if t.ack != isn+1+uint32(len(req)) {
+					viol("ack-not-exact", fmt.Sprintf("reply segment acknowledges %d, the request ends at %d", t.ack, isn+1+uint32(len(req))))
+				}
+				reply = append(reply, t.payload...)
+				next += uint32(len(t.payload))
+			}
+		}
+	}
+	r.lab.inject(mk(isn, 0, 0x02, nil))
+	r.lab.c.VerifTakeKnock()
+	collect()
+	if nframes != 1 {
+		viol("synack-wrong", fmt.Sprintf("%d frames for the SYN", nframes))
+	}
+	srv := next - 1
+	r.lab.inject(mk(isn+1, srv+1, 0x10, nil))
+	time.Sleep(3 * time.Millisecond)
+	seq := isn + 1
+	prev := 0
+	for i, c := range append(append([]int(nil), cuts...), len(req)) {
+		if c <= prev || c > len(req) {
+			continue
+		}
+		flags := byte(0x10)
+		if c == len(req) || i%2 == 1 {
+			flags |= 0x08
+		}
+		r.lab.inject(mk(seq, srv+1, flags, req[prev:c]))
+		seq += uint32(c - prev)
+		prev = c
+		collect()
+	}
+	want := map[uint16]string{80: "http", 9200: "elasticsearch"}[dport]
+	found := false
+	for dl := time.Now().Add(3 * time.Second); time.Now().Before(dl) && !found; time.Sleep(2 * time.Millisecond) {
+		for _, e := range r.lab.ev.From(0) {
+			m := evMap(e)
+			if fmt.Sprint(m["category"]) == want {
+				found = true
+				if fmt.Sprint(m["source-ip"]) != peer.String() || fmt.Sprint(m["source-port"]) != fmt.Sprint(sport) || fmt.Sprint(m["destination-ip"]) != my.String() || fmt.Sprint(m["destination-port"]) != fmt.Sprint(dport) {
+					viol("event-wrong-addresses", fmt.Sprintf("%v:%v>%v:%v", m["source-ip"], m["source-port"], m["destination-ip"], m["destination-port"]))
+				}
+				if fmt.Sprint(m["http.method"]) != "GET" || fmt.Sprint(m["http.uri"]) != target {
+					viol("event-request-wrong", fmt.Sprintf("method %v target %v, sent GET %s", m["http.method"], m["http.uri"], target))
+				}
+			}
+		}
+	}
+	if !found {
+		viol("no-connection-event", fmt.Sprintf("no %s event for the request to port %d", want, dport))
+	}
+	time.Sleep(10 * time.Millisecond)
+	collect()
+	if found && !strings.HasPrefix(string(reply), "HTTP/") {
+		viol("reply-not-sent", fmt.Sprintf("the handler's reply did not arrive as in-order segments: %q", reply))
+	}
+	emit(line, fmt.Sprintf("frames=%d reply=%d", nframes, len(reply)), verdict, found)
+}
+
 var carryIPSeen, carryTCPSeen int
 
 // carriesTwice: for an emitted IP packet, whether the sum of the IPv4 header words / of the TCP pseudo header and
@@ -444,6 +649,13 @@ func segPlans() [][]segPlan {
 
 func genC14(tier string, seed uint64) {
 	rng := NewRng(seed)
+	os.Stdout = devNull // the canary's http handler prints the request to stdout; records go through `out`
+	if os.Getenv("HT_C14_ONLY") == "handoff" {
+		for i := 0; i < 40; i++ {
+			runHandoff(250, 8080, time.Duration(i%5)*time.Microsecond)
+		}
+		return
+	}
 	p1, p2 := stdPeers[0], stdPeers[1]
 	// 1. single connections: ISN boundaries x plans x fin variants
 	for _, isn := range isnBoundary {
@@ -464,6 +676,28 @@ func genC14(tier string, seed uint64) {
 			}
 		}
 	}
+	// 2a. decoded ports whose handler reports the first bytes read (telnet, https, nbt, smb, mssql, redis)
+	for di, dp := range []uint16{23, 443, 139, 445, 1433, 6379} {
+		for pi, sp := range segPlans() {
+			if tier != "thorough" && (pi+di)%3 != 0 {
+				continue
+			}
+			runScenario(1, []*connPlan{plan(p1, 44000+uint16(pi), dp, isnBoundary[(pi+di)%len(isnBoundary)], sp, []int{-1, 0, 3}[(pi+di)%3], -1)}, nil, nil)
+		}
+	}
+	// 2d. ports whose handler parses a request and answers it (the only frames with payload the listener emits)
+	for i, dp := range []uint16{80, 9200, 80, 9200, 80, 80, 9200, 80} {
+		target := "/" + strings.Repeat("x", []int{0, 1, 2, 3, 40, 41, 300, 301}[i])
+		reqLen := len(target) + 56
+		cuts := [][]int{nil, {1}, {5, 20}, {reqLen - 1}, {4, 5, 6, 7}, {reqLen / 2}, nil, {10, 11}}[i]
+		runHTTPPort(dp, stdPeers[i%4], uint16(45000+i), isnBoundary[i%len(isnBoundary)], target, cuts)
+	}
+	// 2c. hand-off of the pushed bytes to the handler goroutine, with no pause and with pauses around the time the
+	// goroutine needs to reach its wait
+	for _, gap := range []time.Duration{0, 0, time.Microsecond, 2 * time.Microsecond, 5 * time.Microsecond, 10 * time.Microsecond, 20 * time.Microsecond, 50 * time.Microsecond} {
+		runHandoff(250, 8080, gap)
+	}
+	runHandoff(250, 23, 0)
 	// 2b. drawn values for which the checksum sums need more than one fold (steered through the hooks): about one
 	// emitted frame in 10^4 is of this kind, so random draws do not reach it
 	for i, isn := range []uint32{0, 77, 1<<32 - 2, 0x7fff0000, 0xabcdef01, 0x0000ffff} {
@@ -614,6 +848,30 @@ func noiseFrame(rng *Rng) []byte {
 // replayCan re-runs the frames of a recorded case line on a fresh listener.
 func replayCan(l string) {
 	f := strings.Fields(l)
+	os.Stdout = devNull
+	if len(f) == 4 && f[0] == "@canhandoff" {
+		var n, dp, gap int
+		fmt.Sscan(f[1], &n)
+		fmt.Sscan(f[2], &dp)
+		fmt.Sscan(f[3], &gap)
+		runHandoff(n, uint16(dp), time.Duration(gap)*time.Microsecond)
+		return
+	}
+	if len(f) == 7 && f[0] == "@canhttp" {
+		var dp, sp int
+		var isn uint64
+		fmt.Sscan(f[1], &dp)
+		fmt.Sscan(f[3], &sp)
+		fmt.Sscan(f[4], &isn)
+		var cuts []int
+		for _, c := range strings.Split(f[6], ",")[1:] {
+			var k int
+			fmt.Sscan(c, &k)
+			cuts = append(cuts, k)
+		}
+		runHTTPPort(uint16(dp), net.IP(unhx(f[2])), uint16(sp), uint32(isn), f[5], cuts)
+		return
+	}
 	if len(f) < 3 || f[0] != "can" {
 		return
 	}
